@@ -43,6 +43,7 @@ def rec(t):
     return {"k": t["k"], "v": t["v"], "dt": t.get("dt", ""), "lang": (t.get("lang_raw") or "").lower()}
 
 
+XSD_NS = "http://www.w3.org/2001/XMLSchema#"
 P = URIRef("urn:x:p")
 S_ = URIRef("urn:x:s")
 
@@ -68,6 +69,32 @@ def via(how, a):
         g = Graph()
         r = g.query("SELECT ?v WHERE { VALUES ?v { %s } }" % a.n3())
         return list(r.bindings[0].values())[0]
+    if how == "sparql_base":
+        # the same text under a BASE declaration / the base= option: an absolute IRI is not resolved against anything
+        g = Graph()
+        r = g.query("BASE <http://base.example/dir/doc> SELECT ?v WHERE { VALUES ?v { %s } }" % a.n3())
+        b1 = list(r.bindings[0].values())[0]
+        r = g.query("SELECT ?v WHERE { BIND(%s AS ?v) }" % a.n3(), base="http://base.example/dir/doc")
+        b2 = list(r.bindings[0].values())[0]
+        return b1 if b1 == b2 and type(b1) is type(b2) else ("differ", b1, b2)
+    if how == "sparql_prepared":
+        from rdflib.plugins.sparql import prepareQuery
+        q = prepareQuery("SELECT ?v WHERE { BIND(%s AS ?v) }" % a.n3())
+        g = Graph()
+        b1 = list(g.query(q).bindings[0].values())[0]
+        b2 = list(g.query(q).bindings[0].values())[0]
+        return b1 if b1 == b2 and type(b1) is type(b2) else ("differ", b1, b2)
+    if how == "ctor":
+        # the copy constructor of the term's own class
+        return type(a)(a)
+    if how == "from_n3_nsm":
+        # n3() with a namespace manager that abbreviates, read back with the same manager: prefixes the default manager lacks (ex:)
+        # or binds to another namespace (schema: is https://schema.org/ by default)
+        g = Graph(bind_namespaces="none")
+        g.bind("ex", "http://ex.example/")
+        g.bind("schema", "http://schema.org/")
+        g.bind("x", XSD_NS)
+        return from_n3(a.n3(g.namespace_manager), nsm=g.namespace_manager)
     raise ValueError(how)
 
 
